@@ -234,8 +234,10 @@ def strategy_desc(draw):
         return draw(gen.split_desc())
     if r <= 3:
         return draw(gen.expand_desc())
-    if r <= 6:
+    if r <= 5:
         return draw(gen.peel_desc())
+    if r <= 6:
+        return draw(gen.factor_desc())
     if r <= 8:
         return draw(gen.unary_desc())
     return ["LetterSwap", {"shift": draw(st.integers(1, 2))}]
@@ -273,8 +275,8 @@ def _avoiding_prefix(draw, alphabet, pats, length):
 @st.composite
 def applicable_case(draw, tier="quick"):
     """(class, strategy) drawn together so that the strategy applies."""
-    kind = draw(st.sampled_from(["Expand", "Expand", "Peel", "Peel", "Peel", "SplitAtom", "Reduce", "StatXf", "StatPerm", "LetterSwap"]))
-    k = draw(st.sampled_from([1, 2, 2, 2, 3])) if kind != "LetterSwap" else draw(st.sampled_from([2, 2, 3]))
+    kind = draw(st.sampled_from(["Expand", "Expand", "Peel", "Peel", "Peel", "Factor", "Factor", "SplitAtom", "Reduce", "StatXf", "StatPerm", "LetterSwap"]))
+    k = draw(st.sampled_from([1, 2, 2, 2, 3])) if kind not in ("LetterSwap", "Factor") else draw(st.sampled_from([2, 2, 3]))
     alphabet = "abc"[:k]
     npat = draw(st.sampled_from([0, 1, 1, 2, 2, 3]))
     pats = draw(st.lists(gen.words(alphabet, 1, 3), min_size=npat, max_size=npat, unique=True))
@@ -288,6 +290,15 @@ def applicable_case(draw, tier="quick"):
         prefix = _avoiding_prefix(draw, alphabet, pats, draw(st.integers(m, m + 2)))
         strict = int(draw(st.integers(0, 4)) == 0)
         sdesc = draw(gen.peel_desc())
+    elif kind == "Factor":
+        sdesc = draw(gen.factor_desc())
+        cut = 1 + sdesc[1]["cut"] % (k - 1)
+        s1, s2 = alphabet[:cut], alphabet[cut:]
+        if sdesc[1]["flip"]:
+            s1, s2 = s2, s1
+        pats = [p for p in pats if set(p) <= set(s1) or set(p) <= set(s2) or draw(st.integers(0, 3)) == 0]
+        pats = sorted(set(pats) | {b + a for b in s2 for a in s1})
+        prefix = _avoiding_prefix(draw, s1, [p for p in pats if set(p) <= set(s1)], draw(st.integers(0, 3)))
     elif kind == "Expand":
         prefix = _avoiding_prefix(draw, alphabet, pats, draw(st.integers(0, 3)))
         strict = int(draw(st.integers(0, 2)) == 0)
@@ -327,6 +338,12 @@ def applicable_case(draw, tier="quick"):
         sdesc = ["LetterSwap", {"shift": draw(st.integers(1, k - 1))}]
     if strict and all(any(p in prefix + a for p in pats) for a in alphabet):
         strict = 0
+    if kind == "Factor" and draw(st.integers(0, 2)) == 0:
+        letters = list(alphabet)
+        stats = [draw(st.sampled_from(letters)), draw(st.sampled_from(letters))] + stats[:1]
+        for key in ("xf_left", "xf_right"):
+            if draw(st.booleans()):
+                sdesc[1][key] = draw(st.sampled_from(["merge", "dm", "mr"]))
     if kind in ("Peel", "Expand", "SplitAtom") and draw(st.integers(0, 3)) == 0:
         # make merges bite: two statistics that agree on one child but not on the other
         letters = list(alphabet)
